@@ -41,6 +41,9 @@ def bases(ctx, tier):
     # ... and the same before the enclosing folder has a history of its own (only create can be asked there)
     B["only-nested-hidden"] = (ops.build(ctx, t9, [c(".staging/card", ["md5"])], expect=[0]), [])
     B["only-nested-plain"] = (ops.build(ctx, T, [c("d", ["md5"])], expect=[0]), [])
+    # ... the same with the folder hashed in a format that the file which took its name is only sealed in later
+    B["retyped-paths-other-format"] = (ops.build(ctx, t7, [c("", ["xxh64"]), ["rm", "was-dir"], ["write", "was-dir", b"now a file"],
+                                                            c("", ["md5"])], expect=[0, None]), [])
     B["failed-generation"] = (ops.build(ctx, T, [c("", ["md5"]), ["write", "a.txt", FAILED_CONTENT], c("", ["md5"]),
                                                  ["write", "a.txt", T["a.txt"]]], expect=[0, 11]), [])
     B["empty-folder"] = (ops.build(ctx, {}, [c("", ["xxh64"])], expect=[0]), [])
